@@ -301,6 +301,13 @@ _REFLECT = {ast.Lt: ast.Gt, ast.Gt: ast.Lt, ast.LtE: ast.GtE, ast.GtE: ast.LtE,
             ast.Eq: ast.Eq, ast.NotEq: ast.NotEq}
 
 
+_LIST_METHODS = {'append', 'extend', 'insert', 'pop', 'remove', 'index', 'count', 'clear', 'sort', 'reverse', 'copy'}
+
+
+def _is_list_subclass(cls):
+    return any(getattr(b, 'dotted', '') == 'builtins.list' for b in cls.mro() if not isinstance(b, ClassInfo))
+
+
 def is_abstract(v):
     return isinstance(v, AbstractValue)
 
@@ -360,6 +367,8 @@ class Interp:
             if hasattr(v, 'abs_truth'):
                 return v.abs_truth(self)
             return True
+        if isinstance(v, Obj) and '__items__' in v.attrs:
+            return bool(v.attrs['__items__'])
         if isinstance(v, (Obj, ClassInfo, FuncInfo, BoundMethod, LambdaVal, ModuleRef, ExternalRef, RxVal)):
             return True
         if isinstance(v, GenVal):
@@ -522,6 +531,8 @@ class Interp:
             hit = v.cls.lookup('__getattr__')
             if hit is not None and hit[0] == 'method':
                 return self.call_function(hit[1], [v, name], {})
+            if name in _LIST_METHODS and _is_list_subclass(v.cls):
+                return PyMethod(v.attrs.setdefault('__items__', []), name)
             raise Raised(ExcVal('AttributeError', (v.cls.short, name)), node)
         if isinstance(v, ClassInfo):
             if name == '__name__':
@@ -740,6 +751,10 @@ class Interp:
                 return Unknown('len')
             if isinstance(a, GenVal):
                 raise Raised(ExcVal('TypeError', ('len of generator',)))
+            if isinstance(a, Obj):
+                if _is_list_subclass(a.cls):
+                    return len(a.attrs.get('__items__', []))
+                raise Raised(ExcVal('TypeError', ('object has no len()',)))
             return len(a)
         if d in ('builtins.any', 'builtins.all'):
             want = d.endswith('any')
@@ -1410,6 +1425,8 @@ class Interp:
             return Unknown('index')
         if isinstance(base, GenVal):
             raise Raised(ExcVal('TypeError', ('generator not subscriptable',)), node)
+        if isinstance(base, Obj) and _is_list_subclass(base.cls):
+            base = base.attrs.get('__items__', [])
         try:
             return base[idx]
         except (IndexError, KeyError, TypeError) as ex:
